@@ -145,7 +145,7 @@ NESTED_DEF_NAMES = ["n19a", "n19b", "n19c", "n19d", "n19e", "n19f", "n19g", "n19
 
 EXPR_POSITIONS = [
     "expr", "ctl-if", "ctl-for", "code", "code-in-def", "module", "def-body", "def-default-top",
-    "call-expr", "nscall-attr", "filter-arg", "block-filter", "def-kwdefault-nested",
+    "call-expr", "nscall-attr", "filter-arg", "block-filter", "def-kwdefault-nested", "filter-pair-then", "filter-pair-before", "def-filter-pair",
 ] + ["def-default-nested:" + n for n in NESTED_DEF_NAMES]
 STMT_POSITIONS = ["code", "code-in-def", "code-in-ctl", "module"]
 
@@ -236,6 +236,18 @@ def expr_case(label, E, free, bound, pos, outside):
     elif pos == "filter-arg":
         t = "[[${0 | G19(%s)}]]%s" % (E, obs_t)
         body = "__o(((%s,), []))%s" % (E, obs_n)
+    elif pos in ("filter-pair-then", "filter-pair-before", "def-filter-pair"):
+        # a filter list of two items: one holds E (which may bind names inside itself), the other reads the same name freely
+        if not outside or (pos == "def-filter-pair" and '"' in E):
+            return None
+        a, b = ("G19(%s)" % E, "G19(%s)" % outside) if pos != "filter-pair-before" else ("G19(%s)" % outside, "G19(%s)" % E)
+        last = outside if pos != "filter-pair-before" else E
+        if pos == "def-filter-pair":
+            t = '<%%def name="f19()" filter="%s, %s">t</%%def>[[${f19()}]]' % (a, b)
+        else:
+            t = "[[${0 | %s, %s}]]" % (a, b)
+        body = "__o(((%s,), []))" % last
+        return {"template": t, "mod": mod, "body": body, "mod_names": mod_names, "ctx_names": ctx_names + [outside]}
     elif pos == "block-filter":
         if '"' in E:
             return None
